@@ -211,7 +211,14 @@ impl<'a> RefEnv<'a> {
             if let Some(idx) =
                 self.record(Ev::Call(name.to_string(), cv(arg)), FaultKind::CallError)
             {
-                return Ok(Err(injected_error(idx)));
+                let e = crate::env::injected_call_error(idx, arg);
+                // a not-found error from the context - whatever name it carries - makes the
+                // evaluator fall back to the builtin of the *called* name if builtins are enabled
+                // (and report the called name if there is none); otherwise it passes through
+                if matches!(e, EvalexprError::FunctionIdentifierNotFound(_)) && !self.builtins_disabled {
+                    return d.builtin(name, arg);
+                }
+                return Ok(Err(e));
             }
         }
         if let Some(b) = behaviour {
@@ -373,11 +380,37 @@ pub fn ref_eval(
                             )
                         },
                     };
-                    d.apply(&plain, &[left, rhs]).map_err(RefErr::Skip)??
+                    match plain {
+                        And | Or => match (&left, &rhs) {
+                            (Value::Boolean(l), Value::Boolean(r)) => {
+                                Value::Boolean(if plain == And { *l && *r } else { *l || *r })
+                            },
+                            (Value::Boolean(_), other) | (other, _) => {
+                                return Err(EvalexprError::expected_boolean(other.clone()).into())
+                            },
+                        },
+                        _ => d.apply(&plain, &[left, rhs]).map_err(RefErr::Skip)??,
+                    }
                 },
             };
             env.set(target, new_value)?;
             Ok(Value::Empty)
+        },
+        // the boolean operators are specified here, not delegated: every operand must be a Boolean
+        // (first offender, in order, is reported); nothing is short-circuited at any level
+        And | Or if args.len() == 2 => {
+            let mut b = [false; 2];
+            for (i, a) in args.iter().enumerate() {
+                match a {
+                    Value::Boolean(x) => b[i] = *x,
+                    other => return Err(EvalexprError::expected_boolean(other.clone()).into()),
+                }
+            }
+            Ok(Value::Boolean(if *op == And { b[0] && b[1] } else { b[0] || b[1] }))
+        },
+        Not if args.len() == 1 => match &args[0] {
+            Value::Boolean(x) => Ok(Value::Boolean(!*x)),
+            other => Err(EvalexprError::expected_boolean(other.clone()).into()),
         },
         Add | Sub | Neg | Mul | Div | Mod | Exp | Eq | Neq | Gt | Lt | Geq | Leq | And | Or
         | Not => Ok(d.apply(op, &args).map_err(RefErr::Skip)??),
